@@ -46,11 +46,16 @@ def gen_case(rng):
     if rng.random() < 0.6 and mode not in ("det",) and n >= 4:
         k = rng.randint(1, n - 2); val = float(rng.randint(5, 9)); spec["x0"]["Sc"] = 1.0
         rules.append(["assignment", {"equation": "Sc = %r" % val}, times[k]]); expect.append({"kind": "scheduled", "dest": "Sc", "k": k, "before": 1.0, "after": val})
+    if rng.random() < 0.5 and rules:
+        # a repeated rule given WITHOUT its frequency (the documented default), placed after rules with other frequencies
+        # (seeded change S5_C09: the constructor's default frequency leaked from the previous rule of the list)
+        spec["x0"]["Rz"] = 0.0; rules.append(["assignment", {"equation": "Rz = 2*%s + 3" % a}])
+        expect.append({"kind": "assign", "dest": "Rz", "formula": "2*%s + 3", "args": (a,)})
     spec["rules"] = rules
     # construction history: the model is built (and initialised) with the first rules, the last k are added with create_rule afterwards
     # (seeded change S4_C09: the rule pointers of an earlier initialisation were kept and the whole list appended again)
     if len(rules) >= 2 and rng.random() < 0.35: spec["late_rules"] = rng.randint(1, len(rules) - 1)
-    spec["species"] = list(spec["species"]) + [s_ for s_ in ("Ra", "Rb", "Cn", "Od", "Sc") if s_ in spec["x0"]]
+    spec["species"] = list(spec["species"]) + [s_ for s_ in ("Ra", "Rb", "Cn", "Od", "Sc", "Rz") if s_ in spec["x0"]]
     case = {"spec": spec, "mode": mode, "times": times, "seed": rng.randint(1, 2**31), "expect": expect,
             "kind": {"ssa": "ssa", "ssa_safe": "ssa", "vssa": "vssa", "dssa": "dssa", "dvssa": "dvssa"}.get(mode), "safe": mode == "ssa_safe"}
     if any(rx.get("delay", {}).get("reactants") for rx in spec["reactions"]): case["safe"] = True
